@@ -151,12 +151,38 @@ def local_defs(f: FuncInfo | ast.AST, name: str) -> list[tuple[ast.stmt, Optiona
                         for a, b in zip(tg.elts, st.value.elts):
                             if a is t:
                                 val = b
+                elif len(st.targets) == 1 and not any(
+                    isinstance(x, ast.Starred) for x in st.targets[0].elts
+                ):
+                    # a, b = rhs   ->   a is rhs[0], b is rhs[1]
+                    for i, a in enumerate(st.targets[0].elts):
+                        if a is t:
+                            val = ast.Subscript(
+                                value=st.value, slice=ast.Constant(value=i), ctx=ast.Load()
+                            )
             else:
                 val = st.value
         elif isinstance(st, ast.AugAssign):
             val = None
         out.append((st, val))
     return out
+
+
+def clone(n):
+    """Deep copy of an ast subtree WITHOUT the parent links (copy.deepcopy would follow
+    ``_parent`` and copy the whole module)."""
+    if isinstance(n, ast.AST):
+        new = n.__class__()
+        for fld in n._fields:
+            if hasattr(n, fld):
+                setattr(new, fld, clone(getattr(n, fld)))
+        for a in ("lineno", "col_offset", "end_lineno", "end_col_offset"):
+            if hasattr(n, a):
+                setattr(new, a, getattr(n, a))
+        return new
+    if isinstance(n, list):
+        return [clone(x) for x in n]
+    return n
 
 
 def expand(f: FuncInfo | ast.AST, expr: ast.expr, depth: int = 6, _seen=None) -> ast.expr:
@@ -186,12 +212,36 @@ def expand(f: FuncInfo | ast.AST, expr: ast.expr, depth: int = 6, _seen=None) ->
             val = defs[0][1]
             if n.id in names_in(val):
                 return n
-            return expand(node, copy.deepcopy(val), depth - 1, seen | {n.id})
+            if isinstance(
+                val, (ast.Dict, ast.List, ast.Set, ast.ListComp, ast.DictComp, ast.SetComp)
+            ) and _mutated(node, n.id):
+                return n  # a container that is filled later is not its initial literal
+            return expand(node, val, depth - 1, seen | {n.id})
 
         def visit_Lambda(self, n):
             return n
 
-    return Sub().visit(copy.deepcopy(expr))
+    return Sub().visit(clone(expr))
+
+
+def _mutated(func_node: ast.AST, name: str) -> bool:
+    for st, t in stores(
+        func_node,
+        lambda t: isinstance(t, (ast.Subscript, ast.Attribute))
+        and isinstance(t.value, ast.Name)
+        and t.value.id == name,
+    ):
+        return True
+    for n in walk_local(func_node):
+        if (
+            isinstance(n, ast.Call)
+            and isinstance(n.func, ast.Attribute)
+            and isinstance(n.func.value, ast.Name)
+            and n.func.value.id == name
+            and n.func.attr in ("append", "extend", "update", "add", "insert", "setdefault", "pop", "clear", "remove")
+        ):
+            return True
+    return False
 
 
 def expanded_text(f, expr: ast.expr) -> str:
